@@ -605,6 +605,15 @@ impl Receiver {
     }
 }
 
+#[cfg(feature = "verif")]
+impl Receiver {
+    /// Verification hook: (used, limit) of the receive buffer monitor and credits queued for return.
+    #[doc(hidden)]
+    pub fn verif_credits(&self) -> (Option<(u32, u32)>, u32) {
+        self.credits.verif_state()
+    }
+}
+
 impl Drop for Receiver {
     fn drop(&mut self) {
         // required for correct drop order
